@@ -135,6 +135,16 @@ var vPlainLeaves = []vEntry{
 			return e
 		}, func() string { return [2]string{"a", "b"}[verifChoice("enumval", 2)] }, vStrEq)
 	}},
+	// names are taken verbatim between the quotes: blanks inside them are significant (seed C01e)
+	{"Enum8(blanks)", func() {
+		vOfLeaf("Enum8", true, func() ColumnOf[string] {
+			e := new(ColEnum)
+			if err := e.Infer("Enum8(' a' = 1, 'a' = 2, 'b ' = 3)"); err != nil {
+				verifFail("enum-infer")
+			}
+			return e
+		}, func() string { return [3]string{" a", "a", "b "}[verifChoice("enumval", 3)] }, vStrEq)
+	}},
 }
 
 // raw temporal columns (the time conversions themselves are C20's subject)
